@@ -123,7 +123,9 @@ def dd_norm(obj: dict) -> dict:
     out = {}
     for k, v in obj.items():
         if k.endswith("_header"):
-            out[k] = v or []
+            # an unnamed (spacer) column is not content: csv keeps it as the key ""
+            out[k] = [[h for h in d if h != ""] for d in (v or [])]
+            out[k] = [d for d in out[k] if d]
         elif k in ("sheet_names", "fallback_form_name"):
             out[k] = v
         elif v is None:
@@ -394,7 +396,10 @@ def apply_layout(aw: dict, lay: dict):
         if key in lay["trail_cols"]:
             s["_trail_cols"] = lay["trail_cols"][key]
         # does a limit truncate?  (longest interior blank run of rows > 60, of header cells > 20)
-        if max_interior_run([not any(c != "" for c in r) for r in s["rows"]]) > 60:
+        # a row is empty for the spreadsheet readers when it has no cell *under a named header column*
+        # (they read `len(headers)` columns only): a row whose only content lies beyond the header row
+        # extends a run of empty rows
+        if max_interior_run([row_data_empty(s["header"], r) for r in s["rows"]]) > 60:
             truncating = True
         if max_interior_run([h == "" for h in s["header"]]) > 20:
             truncating = True
@@ -414,6 +419,11 @@ def apply_layout(aw: dict, lay: dict):
                     grid[i] = [("blank", "  ")] + grid[i][1:] if grid[i] else [("blank", "  ")]
         grids.append({"name": s["name"], "grid": grid})
     return grids, ref, truncating
+
+
+def row_data_empty(header: list[str], row: list[str]) -> bool:
+    """No non-empty cell under a named header column (cells beyond the header width do not count)."""
+    return not any(h != "" and c != "" for h, c in zip(header, row))
 
 
 def max_interior_run(flags: list[bool]) -> int:
@@ -457,12 +467,18 @@ def xlsx_representable(aw: dict) -> bool:
 
 
 KNOWN_SHAPES = {
+    "F48": "csv: an unnamed (spacer) column on the choices sheet is kept as the header '' and draws the invalid-header warning; xls/xlsx/md/dict drop or ignore it",
     "F16": "md/csv drop interior blank rows that xls/xlsx/dict keep",
     "F29": "interior U+00A0 read as a space by xls/xlsx, kept by md/csv/dict",
 }
 
 
-def judge(ctx, case, container, channel, mode, obs, ref_obs, aw_ref, data_text=None, level="convert", stem=None):
+UNNAMED_CHOICES_COLUMN_WARNING = ("[row : 1] On the 'choices' sheet, the '' value is invalid. "
+                                  "Column headers must not be empty and must not contain spaces.")
+
+
+def judge(ctx, case, container, channel, mode, obs, ref_obs, aw_ref, data_text=None, level="convert", stem=None,
+          unnamed_choices_column=False):
     """Compare one channel's observation with the reference; classify a deviation."""
     eq = obs_eq if level == "convert" else parse_eq
     if eq(obs, ref_obs):
@@ -471,6 +487,18 @@ def judge(ctx, case, container, channel, mode, obs, ref_obs, aw_ref, data_text=N
     where = {"container": container, "channel": channel, "mode": mode, "level": level}
     extra = {"where": where, "features": feats, "got": obs_brief(obs) if level == "convert" else obs,
              "expected": obs_brief(ref_obs) if level == "convert" else ref_obs}
+    # F48: csv keeps an unnamed column of the choices sheet as the header "" and is warned about it
+    if container == "csv" and level == "convert" and unnamed_choices_column and obs["class"] == "ok":
+        extras = [w for w in obs["warnings"] if w.startswith(UNNAMED_CHOICES_COLUMN_WARNING)]
+        if len(extras) == 1:
+            e = dict(extra)
+            e["unnamed_choices_column"] = True
+            ctx.fail(Failure("channel-differs", f"F48: {KNOWN_SHAPES['F48']} ({container}/{channel}/{mode})", case,
+                             signature="F48", extra=e))
+            obs = dict(obs)
+            obs["warnings"] = [w for w in obs["warnings"] if w not in extras]
+            if eq(obs, ref_obs):
+                return False
 
     def known(fid, **kw):
         e = dict(extra)
@@ -545,6 +573,27 @@ def excel_roundtrip_oracle(ctx, case, aw_ref, rng):
                              case, signature=f"roundtrip:{which}", extra={"grids": [[g["name"], [[repr(x) for _t, x in r] for r in g["grid"]]] for g in grids], "got": py, "expected": v["book"]}))
 
 
+def with_spacer_columns(rng: random.Random, aw: dict, always: bool = False) -> dict:
+    """Layout noise of the text containers: unnamed, empty spacer columns between named columns and
+    empty columns to the right of the data (spreadsheet exports pad every row to the same width)."""
+    out = copy.deepcopy(aw)
+    for s in out["sheets"]:
+        n = len(s["header"])
+        if n < 2 or (not always and rng.random() < 0.3):
+            continue
+        width = max([n] + [len(r) for r in s["rows"]])
+        pos = rng.randint(1, n - 1)
+        k = rng.choice([1, 1, 2])
+        tail = rng.choice([0, 0, 1, 3])
+        s["header"] = s["header"][:pos] + [""] * k + s["header"][pos:] + [""] * (width - n + tail)
+        rows = []
+        for r in s["rows"]:
+            r = r + [""] * (width - len(r))
+            rows.append(r[:pos] + [""] * k + r[pos:] + [""] * tail)
+        s["rows"] = rows
+    return out
+
+
 def case_run(ctx, case, scratch: C.Scratch, full: bool = True):
     """case = {"aw": …, "layout": …, "channels": seed}"""
     aw = case["aw"]
@@ -557,6 +606,8 @@ def case_run(ctx, case, scratch: C.Scratch, full: bool = True):
             ctx.count("feature:" + k)
     if truncating:
         ctx.count("layout:beyond-limit(no oracle)")
+    if "expect_truncating" in case and case["expect_truncating"] != truncating:
+        raise vcore.Infra(f"truncation predicate of the harness is wrong on a directed case: expected {case['expect_truncating']}")
     stem = case.get("stem", "data")
 
     ref_dict = C.to_dict(aw_ref)
@@ -587,6 +638,19 @@ def case_run(ctx, case, scratch: C.Scratch, full: bool = True):
     pad = (lambda c: rng.choice(["", " ", "  "]) + c + rng.choice(["", " ", "\t"])) if rng.random() < 0.4 else None
     rendered["csv"] = C.to_csv(aw_ref, quoting=rng.choice([csv.QUOTE_ALL, csv.QUOTE_MINIMAL]),
                                lineterminator=rng.choice(["\r\n", "\n"]), pad=pad)
+    convert_only = set()
+    unnamed_choices = False
+    if not feats["long_row"] and rng.random() < case.get("p_spacer", 0.4):
+        # the same content with unnamed spacer columns (content-neutral for every reader)
+        aw_sp = with_spacer_columns(rng, aw_ref, always=case.get("p_spacer", 0) >= 1)
+        unnamed_choices = any(s_["name"].lower() == "choices" and "" in s_["header"] for s_ in aw_sp["sheets"])
+        rendered["csv"] = C.to_csv(aw_sp, quoting=rng.choice([csv.QUOTE_ALL, csv.QUOTE_MINIMAL]),
+                                   lineterminator=rng.choice(["\r\n", "\n"]), pad=pad)
+        ctx.count("layout:csv-spacer-columns")
+        if "md" in rendered and rng.random() < 0.5:
+            rendered["md"] = C.to_md(aw_sp)
+            convert_only.add("md")  # md names an unnamed column "None" in the header list (not content)
+            ctx.count("layout:md-spacer-columns")
     if xlsx_representable(aw_ref):
         x = C.to_xlsx(grids)
         rendered["xlsx"] = x
@@ -614,13 +678,23 @@ def case_run(ctx, case, scratch: C.Scratch, full: bool = True):
             ft = C.EXT[container] if mode == "explicit" else None
             is_trunc = truncating and container in ("xlsx", "xlsm", "xls")
             text = data if isinstance(data, str) else None
-            for level in (("convert", "parse") if first or rng.random() < case.get("p_both", 0.3) else (rng.choice(["convert", "parse"]),)):
+            levels = ("convert", "parse") if first or rng.random() < case.get("p_both", 0.3) else (rng.choice(["convert", "parse"]),)
+            if container in convert_only:
+                levels = ("convert",)
+            for level in levels:
                 name = C.file_name(rng, container, stem) if ch in ("path", "pathlike") else None
                 if name is not None and mode == "implicit" and container in ("xlsm",):
                     name = stem + C.EXT[container]  # xlsm bytes = xlsx bytes: nothing to sniff
-                arg, cleanup, gives_stem = C.deliver(container, data, ch, scratch, stem=stem, name=name)
+                subdirs = None
+                if ch in ("path", "pathlike", "file"):
+                    dk = rng.choice(C.DIR_KINDS)
+                    subdirs = C.unusual_dirs(rng, dk)
+                    ctx.count(f"dir:{dk}/{ch}")
+                arg, cleanup, gives_stem = C.deliver(container, data, ch, scratch, stem=stem, name=name, subdirs=subdirs)
                 if gives_stem:
                     ctx.count("path-suffix:" + (name[len(stem):] or "(none)"))
+                    if len(str(arg)) > 260:
+                        ctx.count("path-length>260")
                 try:
                     if ch == "bytesio_twice":
                         run_parse(arg, file_type=ft)  # first use of the stream; the second one is observed
@@ -632,7 +706,8 @@ def case_run(ctx, case, scratch: C.Scratch, full: bool = True):
                     continue
                 st = C.path_stem(name) if gives_stem else None
                 exp = ref_for(st, level) if gives_stem else (ref if level == "convert" else ref_dd)
-                judge(ctx, case, container, ch, mode, o, exp, aw_ref, data_text=text, level=level, stem=st)
+                judge(ctx, case, container, ch, mode, o, exp, aw_ref, data_text=text, level=level, stem=st,
+                      unnamed_choices_column=unnamed_choices)
                 compared += 1
             first = False
     ctx.record({"aw": aw, "layout": lay, "stem": stem}, nontrivial=ref["class"] in ("ok", "pyxform") and compared >= 3)
@@ -704,6 +779,25 @@ def directed_cases() -> list[dict]:
     aw = copy.deepcopy(base)
     aw["sheets"][0]["rows"][0][2] = "a|b|c|d|e|f"
     out.append(mk(aw))
+    # spacer columns in md / csv (F48 on the choices sheet)
+    aw = copy.deepcopy(base)
+    aw["sheets"][0]["header"].append("required")
+    aw["sheets"][0]["rows"] = [["select_one l", "a", "A", "yes"], ["integer", "b", "B", "yes"]]
+    aw["sheets"].append({"name": "choices", "header": ["list_name", "name", "label"], "rows": [["l", "x", "X"], ["l", "y", "Y"]]})
+    aw["sheets"].append({"name": "settings", "header": ["form_title", "version"], "rows": [["T", "7"]]})
+    for seed in (1, 2, 3):
+        c = mk(copy.deepcopy(aw))
+        c["p_spacer"] = 1.0
+        c["chan_seed"] = seed
+        out.append(c)
+    # a row whose only content lies beyond the header width is data-empty for xls/xlsx: 60 blank rows
+    # before it make a run of 61 (truncation by design, no oracle), 59 make a run of 60 (nothing may be lost)
+    aw = copy.deepcopy(base)
+    aw["sheets"][0]["rows"] = [["text", "a", "A"], ["", "", "", "note to self"], ["integer", "b", "B"]]
+    for k, trunc in ((60, True), (59, False)):
+        c = mk(copy.deepcopy(aw), {"row_runs": {"0": [1, k]}})
+        c["expect_truncating"] = trunc
+        out.append(c)
     # limits
     for k in (59, 60, 61):
         out.append(mk(copy.deepcopy(base), {"row_runs": {"0": [1, k]}, "p_typed": 1.0}))
@@ -747,7 +841,7 @@ def explore(ctx, factor, bs):
                 case_run(ctx, case, scratch, full=True)
             fixtures_case(ctx)
         FN.explore_fn(ctx, rng, ctx.pick(400, 8000) * factor, scratch)
-        n = ctx.pick(60, 700) * factor
+        n = ctx.pick(50, 700) * factor
         knobs = {"per_container": ctx.pick(3, 5), "p_both": 0.3}
         for i in range(n):
             case = gen_case(rng, knobs)
@@ -785,6 +879,7 @@ def _m(fid, pred):
 
 
 MATCHERS = {
+    "F48-csv-unnamed-choices-column-warning": _m("F48", lambda f: f.extra["where"]["container"] == "csv" and f.extra.get("unnamed_choices_column")),
     "F16-md-csv-drop-blank-rows": _m("F16", lambda f: f.extra["where"]["container"] in ("md", "csv") and f.extra["features"]["blank_row"] and f.extra.get("transformed")),
     "F29-interior-nbsp": _m("F29", lambda f: f.extra["where"]["container"] in ("xlsx", "xlsm", "xls") and f.extra["features"]["nbsp"] and f.extra.get("transformed")),
 }
